@@ -42,6 +42,7 @@ var specs = []spec{
 	{"chan_lines_cap", "internal/server/handlers/serverhandler.go", "chancap", "lines", "NewServerHandler", 0},
 	{"chan_server_messages_cap", "internal/server/handlers/serverhandler.go", "chancap", "serverMessages", "NewServerHandler", 0},
 	{"chan_mapr_messages_cap", "internal/server/handlers/serverhandler.go", "chancap", "maprMessages", "NewServerHandler", 0},
+	{"max_before_context", "internal/config/args.go", "const", "maxBeforeContext", "", 0},
 	{"query_keywords", "internal/mapr/token.go", "strlist", "keywords", "", 0},
 }
 
